@@ -44,6 +44,7 @@ type visInfo struct {
 // Exec verifies one function.
 type Exec struct {
 	havocSeq int // ids naming unknown heaps (State.HavocID)
+	capObj   map[string]types.Object // ghost variables of `call f capture[label] e`
 	P       *Program
 	Ctx     *Ctx
 	S       *Sorts
